@@ -68,6 +68,9 @@ size_t vf_os_accessible_unpurged_bytes(uintptr_t lo, uintptr_t hi);  /* RW and n
 uint64_t vf_os_table_hash(void);
 void   vf_os_adopt(void* addr, size_t len, int prot);    /* register harness-owned memory handed to mimalloc */
 void   vf_os_plan_clear(void);
+/* the C++ new-handler that mimalloc's C build looks up through the (weak) symbol _ZSt15get_new_handlerv: the shim defines that
+   symbol strongly and returns this pointer (NULL = none installed) */
+extern void (*vf_new_handler)(void);
 const char* vf_os_kind_name(int kind);
 void   vf_os_dump(int fd);
 size_t vf_os_resident_bytes(uintptr_t lo, uintptr_t hi); /* mincore() over mapped RW regions in [lo,hi) */
